@@ -1,0 +1,28 @@
+//go:build verif
+
+package pipeline
+
+// Contracts for gvc (see /verif/DESIGN.md). Comment-only: this file adds no code to any build.
+
+// Source analysis and validation walk the AST through go/ast and go/types: outside the verified subset.
+// They may change any heap; they cause the analysedSources event and no other.
+//@ func GleecePipeline.GenerateGraph trusted havocs
+//@ emits analysedSources()
+//@ func GleecePipeline.Validate trusted havocs
+//@ func GleecePipeline.GenerateIntermediate trusted havocs
+//@ emits intermediateBuilt()
+//@ func NewGleecePipeline trusted havocs
+
+// Assumed: the error text builder has no effect.
+//@ extern github.com/gopher-fleece/gleece/v2/core/validators/diagnostics.DiagnosticsToError
+//@ ensures result != nil
+
+// The validation gate of a run: the reduced metadata is built only when no error-severity diagnostic was
+// reported for any controller or any of its receivers; otherwise the run fails.
+//@ func GleecePipeline.Run props C10,C14 havocs
+//@ requires p != nil
+//@ mayemit analysedSources, intermediateBuilt, severityFiltered
+//@ ensures gate: implies(evcount(intermediateBuilt) > old(evcount(intermediateBuilt)), evcount(severityFiltered) > old(evcount(severityFiltered)) && !evlast(severityFiltered, 0) && evlast(severityFiltered, 1))
+//@ ensures order: implies(evcount(intermediateBuilt) > old(evcount(intermediateBuilt)), evcount(analysedSources) > old(evcount(analysedSources)))
+//@ ensures once: evcount(intermediateBuilt) <= old(evcount(intermediateBuilt))+1
+//@ ensures failed: implies(result1 != nil && evcount(intermediateBuilt) == old(evcount(intermediateBuilt)), len(result0.Flat) == 0)
